@@ -101,6 +101,13 @@ CLAIMS = {
             "environment table: documented variables == variables set (Cram extras on the cram_compat edge), SHELL, SCRUT_TEST=<file>:<line> "
             "per test case, applied in test/update/create.",
             "Not decided: uniqueness guarantees of tempfile under concurrent processes; what `shares` means under --work-directory.", "§4 C18"),
+    "C10": ("Decides token-field conservation in generate_update (every text field of every MarkdownToken variant is written back untrimmed and "
+            "unfiltered, only code_lines is replaced by the generated test of outcomes[testcase_index], index incremented exactly once per test "
+            "block), that the tokenizer never ends early and stores every consumed line in exactly one token field or consumes it as a delimiter "
+            "on every path, that a passing test is re-emitted from original_string with command and exit code, and the fence and `$`/`>`/`[n]` "
+            "writer/reader tables.",
+            "Not decided: idempotence as a fixpoint over arbitrary documents; byte-exactness of line terminators (CRLF is normalised and a final "
+            "newline added by design).", "§4 C10"),
 }
 
 PENDING = "static rules for this property are designed (DESIGN.md §4) but not yet implemented in this revision"
